@@ -115,3 +115,102 @@ func RunConc(c ConcCase) harn.Result {
 }
 
 var _ p9p.Session
+
+// ---- create race: sessions create one name in one directory at the same instant
+
+type RaceCase struct {
+	Sessions int
+	Rounds   int
+	Dir      bool // create directories instead of files
+	Depth    int  // 0: in the root, 1: in /a
+}
+
+func GenRace(t *rapid.T) RaceCase {
+	return RaceCase{Sessions: rapid.IntRange(2, 8).Draw(t, "sessions"), Rounds: rapid.IntRange(5, 60).Draw(t, "rounds"),
+		Dir: rapid.Bool().Draw(t, "dir"), Depth: rapid.IntRange(0, 1).Draw(t, "depth")}
+}
+
+// RunRace: in every round all sessions clone the directory and create the same
+// name at the same moment.  The tree holds one file per name, so exactly one
+// create may succeed; the winner then removes the file again.
+func RunRace(c RaceCase) harn.Result {
+	w := newWorld(c.Sessions)
+	for s := 0; s < c.Sessions; s++ {
+		if r := w.do(Op{S: s, Kind: "attach", Fid: 0}); r.err != nil || r.pan != "" {
+			return harn.Fail("HARNESS attach: %v %s", r.err, r.pan)
+		}
+	}
+	if c.Depth == 1 {
+		for _, op := range []Op{{S: 0, Kind: "walk", Fid: 0, Newfid: 9}, {S: 0, Kind: "create", Fid: 9, Name: "a", Dir: true}, {S: 0, Kind: "clunk", Fid: 9}} {
+			if r := w.do(op); r.err != nil || r.pan != "" {
+				return harn.Fail("HARNESS %s: %v %s", op, r.err, r.pan)
+			}
+		}
+		for s := 0; s < c.Sessions; s++ {
+			if r := w.do(Op{S: s, Kind: "walk", Fid: 0, Newfid: 5, Names: []string{"a"}}); r.err != nil {
+				return harn.Fail("HARNESS walk: %v", r.err)
+			}
+		}
+	} else {
+		for s := 0; s < c.Sessions; s++ {
+			if r := w.do(Op{S: s, Kind: "walk", Fid: 0, Newfid: 5}); r.err != nil {
+				return harn.Fail("HARNESS clone: %v", r.err)
+			}
+		}
+	}
+	for round := 0; round < c.Rounds; round++ {
+		name := fmt.Sprintf("n%d", round%3)
+		var wg sync.WaitGroup
+		start := make(chan struct{})
+		won := make([]bool, c.Sessions)
+		pan := make([]string, c.Sessions)
+		for s := 0; s < c.Sessions; s++ {
+			wg.Add(1)
+			go func(s int) {
+				defer wg.Done()
+				if r := w.do(Op{S: s, Kind: "walk", Fid: 5, Newfid: 6}); r.err != nil || r.pan != "" {
+					pan[s] = fmt.Sprintf("clone failed: %v %s", r.err, r.pan)
+					return
+				}
+				<-start
+				r := w.do(Op{S: s, Kind: "create", Fid: 6, Name: name, Dir: c.Dir, Mode: 2})
+				if r.pan != "" {
+					pan[s] = r.pan
+					return
+				}
+				won[s] = r.err == nil
+			}(s)
+		}
+		close(start)
+		wg.Wait()
+		winners := 0
+		for s := 0; s < c.Sessions; s++ {
+			if pan[s] != "" {
+				return harn.Fail("round %d, session %d: %s", round, s, pan[s])
+			}
+			if won[s] {
+				winners++
+			}
+		}
+		if winners != 1 {
+			return harn.Fail("round %d: %d of %d sessions creating %q in the same directory at the same time succeeded; a directory holds one entry per name, so exactly one create can win", round, winners, c.Sessions, name)
+		}
+		// the winner removes the file, everybody drops the fid
+		for s := 0; s < c.Sessions; s++ {
+			kind := "clunk"
+			if won[s] {
+				kind = "remove"
+			}
+			if r := w.do(Op{S: s, Kind: kind, Fid: 6}); r.pan != "" || (won[s] && r.err != nil) {
+				return harn.Fail("round %d: %s of the created file failed: %v %s", round, kind, r.err, r.pan)
+			}
+		}
+	}
+	for _, s := range w.sess {
+		s.Stop(nil)
+	}
+	if err := w.validate(); err != nil {
+		return harn.Fail("after the create races: %v", err)
+	}
+	return harn.Result{NonTrivial: true, Classes: []string{"create_race"}}
+}
